@@ -2161,7 +2161,9 @@ def _config_str(
     if _REGISTRY[selector].is_method:
       method_name = parts.pop(0)
       parts[0] += f'.{method_name}'  # parts[0] is the class name.
-    return parts
+    # Names differing only in letter case compare equal above; break the tie so
+    # that the output does not depend on the order bindings were made in.
+    return parts, (scope, selector)
 
   import_manager = ImportManager(_IMPORTS)
   if import_manager.dynamic_registration:
